@@ -353,7 +353,7 @@ func TestC03Forgery(t *testing.T) {
 				hello1 := p1.InitHello(hv.vInitHelloTS, kefake.MarshalKey(idV), hv.vInitHelloSig)
 				hello2 := p2.InitHello(hv.vInitHelloTS, kefake.MarshalKey(idV), hv.vInitHelloSig)
 				if !bytes.Equal(hello1, hello2) {
-					t.Fatalf("harness: twin hellos differ")
+					t.Fatalf("%s", ev.Tag(fmt.Sprintf("harness: twin hellos differ")))
 				}
 				vResp := newSession(idV, false, tBase)
 				_, vrh, err := vResp.Deliver(nil, hello2, tBase)
